@@ -111,6 +111,23 @@ def streams(ctx: C.Ctx):
         c = rng.random()
         rnd.append(h.upper() if c < 0.25 else "".join(ch.upper() if rng.random() < .5 else ch for ch in h) if c < 0.5 else h)
     ctx.run_cases(SIGN, "random-upto-4KiB-mixed-case", rnd, exhaustive=False)
+    # the same bytes in another spelling, one call after the other: the result extends THIS spelling, whatever was signed before
+    again = []
+    for h in [x for x in rnd[:ctx.n(150, 1500)]] + frames[:20] + ["aabb", "00ff10", "deadbeef" * 4]:
+        lo = h.lower()
+        again += [lo, lo.upper(), "".join(c.upper() if i % 3 == 0 else c for i, c in enumerate(lo)), lo]
+    ctx.run_cases(SIGN, "same-bytes-respelled-one-after-the-other", again, exhaustive=False, sample_every=max(1, len(again) // 2))
+    # what was signed is a packet like any other: signing it again appends four more bytes (and once more)
+    resign = []
+    for h in frames[:30] + [x.lower() for x in rnd[:ctx.n(150, 1500)]] + ["", "00", "aabb", "30" * 40]:
+        o = _impl_sign(h)
+        if o.startswith("ok "):
+            once = C.un_ut(o[3:])
+            resign.append(once)
+            o2 = _impl_sign(once)
+            if o2.startswith("ok "):
+                resign.append(C.un_ut(o2[3:]))
+    ctx.run_cases(SIGN, "signing-what-is-already-signed", resign, exhaustive=False, sample_every=max(1, len(resign) // 2))
     # malformed
     bad = ["just a regular string", "0", "abc", "zz", "0g", " 00", "00 ", "0x00", "é0", "٠٠", "00\n", "+1", "f" * 4097]
     for _ in range(ctx.n(300, 3000)):
